@@ -220,6 +220,19 @@ CHECKS["C20"] = dict(
     technique="TLA+ state model of value objects and copy steps enumerated by TLC; every exported case replayed on the real classes",
     design="5 C20")
 
+CHECKS["C18"] = dict(
+    text=("Dataset.tla models create_dataset's accumulation (files in the order given, packets appended to the rows of their APID, field "
+          "set of the first packet fixed per APID, a differing later packet rejects the call); TLC checks Ordered, Complete, OnlyOwn, "
+          "RejectIff and Terminates over every layout of <= 4 packets of 2 APIDs x 2 field sets in <= 2 files, and every exported case is "
+          "replayed through create_dataset on real files (rows identified by a packet id field). At value level, per-APID layouts cover "
+          "integers around every dtype threshold (7..72 bits, signed and unsigned), IEEE 16/32/64 and 1750A floats incl. specials, "
+          "enumerations, booleans, calibrated and time values, strings and blobs with NULs and non-ASCII text, in derived and raw mode "
+          "over three files; every cell is compared with the item the packet generator yields for that packet."),
+    note="Two known findings (trailing NULs of 'S'/'U' dtype cells) are listed in known_findings.json and reported as KNOWN-FINDING; every "
+         "other cell difference is a violation. The generator's own values are decided by C01/C04/C07/C08. " + TRUSTED,
+    technique="TLA+ spec of per-APID accumulation checked by TLC and replayed through create_dataset; cell-by-cell comparison with the packet generator",
+    design="5 C18")
+
 NOT_YET = {}
 for _i in range(1, 21):
     _p = f"C{_i:02d}"
